@@ -10,6 +10,7 @@ import RichchkModel.Generated.TrigTable
 import RichchkModel.Model.StrEdit
 import RichchkModel.Model.Editors
 import RichchkModel.Generated.Consts
+import RichchkModel.Generated.Imports
 open Richchk
 
 def showR {α} (f : α → String) : R α → String
@@ -173,6 +174,16 @@ def opAlloc (kind table batch : String) : String :=
   | "swnm", some _, some b => showR dumpEntries (swnmRebuild Generated.swnmCfg b)
   | _, _, _ => "bad-op"
 
+def opImport1 (idxStr : String) : String :=
+  match idxStr.toNat? with
+  | some e =>
+    match importFirst Generated.moduleGraph 40000 e with
+    | .error err => "ERR " ++ toString err
+    | .ok st => "OK " ++ " ".intercalate ((List.range 4).map fun r =>
+        let f := Generated.factoryModules.getD r 0
+        (if st.loaded.testBit f then "L" else "-") ++ natList (sortNats (registryKeys st r)))
+  | none => "bad-op"
+
 def opTrigRow (kind idStr : String) : String :=
   match idStr.toNat? with
   | some n =>
@@ -192,6 +203,7 @@ def step (line : String) : String :=
   | ["spec-layouts"] => jsonTable Spec.specTable
   | ["flags", nm, n] => opFlags nm n
   | ["trigrow", k, n] => opTrigRow k n
+  | ["import1", e] => opImport1 e
   | ["alloc", k, t, b] => opAlloc k t b
   | ["addstr", w, n, o, st, rq] => opAddStr w n o st rq
   | ["tostrx", n, o, st] => opToStrx n o st
